@@ -21,7 +21,7 @@ pub fn prop() -> Prop {
             Sub::tape("items", 60, 150_000, 7_500_000, |d, cx| run_items(d, cx)),
             Sub::tape("thick_joins", 40, 100_000, 5_000_000, thick_joins),
             Sub::tape("large", 40, 1_500, 75_000, large),
-            Sub::tape("primitives_queries", 30, 100_000, 5_000_000, queries),
+            Sub::tape("primitives_queries", 30, 100_000, 5_000_000, queries).with_fp(),
         ],
     }
 }
